@@ -99,6 +99,7 @@ fn check_doc(ctx: &mut Ctx, schema: &Valid<Schema>, text: &str, family: &str) ->
     ctx.stat(&format!("family:{family}"));
     for r in &out.violations { ctx.stat(&format!("rule:{r}")); }
     family_streams(ctx, schema, &doc, text, &out.violations);
+    if !ctx.thorough || FAMILY_COUNTER.load(std::sync::atomic::Ordering::Relaxed) % 4 == 0 { expand_case(ctx, schema, &doc); }
     if want_ok || out.violations.len() == 1 { ctx.nontrivial(text); }
     if got_ok == want_ok { return Some(want_ok); }
     // classify: which single known-defect emulation (or pair) explains it?
@@ -128,6 +129,64 @@ fn check_doc(ctx: &mut Ctx, schema: &Valid<Schema>, text: &str, family: &str) ->
     Some(want_ok)
 }
 
+
+
+// ------------------------------------------------------------------------------------------------
+// c17.expand: the expansion of an operation's root selection set (inline fragments, spreads, each named
+// fragment once) — depth-first here, breadth-first with `seen_fragments` in the model of expand_selections
+// ------------------------------------------------------------------------------------------------
+fn enc_esels(sels: &[ast::Selection], ty: &str, next_id: &mut usize, o: &mut Vec<String>) {
+    for s in sels {
+        match s {
+            ast::Selection::Field(_) => { o.push(format!("F{}", *next_id)); *next_id += 1; }
+            ast::Selection::InlineFragment(i) => {
+                let t = i.type_condition.as_ref().map(|t| t.to_string()).unwrap_or(ty.to_string());
+                o.push("I".into()); o.push(t.clone()); enc_esels(&i.selection_set, &t, next_id, o);
+            }
+            ast::Selection::FragmentSpread(sp) => o.push(format!("S{}", sp.fragment_name)),
+        }
+    }
+    o.push(".".into());
+}
+/// depth-first reference: (type, field id) pairs
+fn dfs_expand(frags: &[(String, String, Vec<String>)], ty: &str, toks: &[String], pos: &mut usize, visited: &mut Vec<String>, out: &mut Vec<String>) {
+    while *pos < toks.len() {
+        let t = toks[*pos].clone();
+        *pos += 1;
+        if t == "." { return; }
+        if let Some(id) = t.strip_prefix('F') { out.push(format!("{ty}.{id}")); }
+        else if t == "I" { let nt = toks[*pos].clone(); *pos += 1; dfs_expand(frags, &nt, toks, pos, visited, out); }
+        else if let Some(n) = t.strip_prefix('S') {
+            if !visited.contains(&n.to_string()) {
+                visited.push(n.to_string());
+                if let Some((_, tc, body)) = frags.iter().find(|f| f.0 == n) { let mut p2 = 0; dfs_expand(frags, tc, body, &mut p2, visited, out); }
+            }
+        }
+    }
+}
+fn expand_case(ctx: &mut Ctx, schema: &Valid<Schema>, doc: &ast::Document) {
+    let mut next_id = 0usize;
+    let mut frags: Vec<(String, String, Vec<String>)> = vec![];
+    for d in &doc.definitions {
+        if let ast::Definition::FragmentDefinition(f) = d {
+            if frags.iter().any(|x| x.0 == f.name.as_str()) { continue; }
+            let mut o = vec![]; enc_esels(&f.selection_set, f.type_condition.as_str(), &mut next_id, &mut o);
+            frags.push((f.name.to_string(), f.type_condition.to_string(), o));
+        }
+    }
+    for d in &doc.definitions {
+        let ast::Definition::OperationDefinition(op) = d else { continue };
+        let root = schema.root_operation(op.operation_type).map(|n| n.to_string()).unwrap_or("?".into());
+        let mut body = vec![]; enc_esels(&op.selection_set, &root, &mut next_id, &mut body);
+        let mut enc: Vec<String> = vec![frags.len().to_string()];
+        for (n, tc, b) in &frags { enc.push(n.clone()); enc.push(tc.clone()); enc.extend(b.iter().cloned()); }
+        enc.push(root.clone()); enc.extend(body.iter().cloned());
+        let (mut pos, mut visited, mut out) = (0usize, vec![], vec![]);
+        dfs_expand(&frags, &root, &body, &mut pos, &mut visited, &mut out);
+        out.sort();
+        ctx.case("c17.expand", &[format!("={}", enc.join(" "))], &if out.is_empty() { "-".to_string() } else { out.join(" ") });
+    }
+}
 
 // ------------------------------------------------------------------------------------------------
 // family streams c17.ops / c17.frags / c17.fields / c17.args / c17.vars: the diagnostics of one rule
